@@ -21,6 +21,7 @@ var c14ListA = ListSpec{ID: 1, Text: "! list A\n" +
 	"/ex[a-z]+le\\.net/\n" +
 	"/ad$domain=example.org\n" +
 	"@@||example.org^$generichide\n" +
+	"@@||example.org^$genericblock\n" +
 	"##.g1\n" +
 	"example.org##.s1\n" +
 	"example.org#@#.g2\n" +
@@ -61,6 +62,7 @@ func C14Scenarios() []Scenario {
 	d6 := dnsQ("rw.test", 1, "", "")
 	d7 := dnsQ("hosts.test", 1, "", "")
 	eng := Query{Kind: "engine", URL: "http://example.org/ads", Src: "http://example.org/", Type: rules.TypeScript}
+	eng2 := Query{Kind: "engine", URL: "http://ads.example.com/x", Src: "http://other.test/page", Type: rules.TypeImage}
 	cos := Query{Kind: "cosmetic", Host: "example.org", Option: rules.CosmeticOptionAll}
 	return []Scenario{
 		{Name: "S1-same-rule-twice-in-url-2t", Lists: both, Threads: [][]Query{{twice}, {twice}}, Warm: []Query{twice}},
@@ -72,6 +74,8 @@ func C14Scenarios() []Scenario {
 		{Name: "S4-dns-pool-2t", Lists: both, Threads: [][]Query{{d2, d5}, {d3, d1}}, Warm: []Query{d1}},
 		{Name: "S4-dns-pool-3t", Lists: both, Threads: [][]Query{{d2, d5}, {d3, d4}, {d6, d7}}, Warm: []Query{d1, d7}},
 		{Name: "S5-engine-cosmetic-dns-3t", Lists: both, Threads: [][]Query{{eng}, {cos}, {d1}}, Warm: []Query{eng}},
+		{Name: "S7-engine-referrer-2t", Lists: both, Threads: [][]Query{{eng}, {eng2}}, Warm: []Query{eng}},
+		{Name: "S7-engine-same-referrer-2t", Lists: both, Threads: [][]Query{{eng}, {eng}}, Warm: []Query{eng}},
 		{Name: "S6-mixed-3t", Lists: both, Threads: [][]Query{{q3, d7}, {d1, twice}, {rx, q1}}, Warm: []Query{q1, d1}},
 	}
 }
